@@ -19,7 +19,8 @@ type Anchors struct {
 	Connected                                       *types.Var // bool returned by Connected()
 	Die                                             *types.Var // context.CancelFunc
 	Sock                                            *types.Var // net.Conn
-	IO                                              *types.Var // *bufio.ReadWriter
+	IO                                              *types.Var // *bufio.ReadWriter (or the reader half when split)
+	IOFields                                        []*types.Var
 	Cfg                                             *types.Var // *Config
 	St                                              *types.Var // state.Tracker
 	FG, BG, Int                                     *types.Var // *hSet
@@ -157,7 +158,18 @@ func (p *Prog) ResolveAnchors() *Anchors {
 	get(&a.Mu, "sync.RWMutex", "connection mutex")
 	get(&a.Die, "context.CancelFunc", "cancel function")
 	get(&a.Sock, "net.Conn", "socket")
-	get(&a.IO, "*bufio.ReadWriter", "buffered I/O")
+	// buffered I/O: one *bufio.ReadWriter, or its two halves kept in separate fields
+	if a.IO = uniqueField(a.ConnS, "*bufio.ReadWriter"); a.IO != nil {
+		a.IOFields = []*types.Var{a.IO}
+	} else {
+		rd, wr := uniqueField(a.ConnS, "*bufio.Reader"), uniqueField(a.ConnS, "*bufio.Writer")
+		if rd != nil && wr != nil {
+			a.IOFields = []*types.Var{rd, wr}
+			a.IO = rd
+		} else {
+			a.miss("Conn field for buffered I/O (type *bufio.ReadWriter, or *bufio.Reader and *bufio.Writer) not unique/found")
+		}
+	}
 	get(&a.Cfg, "*"+lp+"Config", "config")
 	get(&a.St, modPath+"/state.Tracker", "tracker")
 	for _, m := range []string{"Handle", "HandleBG", "Raw", "Close", "ConnectContext", "Connected", "dispatch"} {
@@ -555,4 +567,24 @@ func (p *Prog) eventHelperParam(h, disp *ssa.Function, cmdVar *types.Var) int {
 	}
 	p.evHelper[h] = res + 1
 	return res
+}
+
+// isIO: fv is the connection's buffered reader/writer (or one of its halves).
+func (a *Anchors) isIO(fv *types.Var) bool {
+	for _, f := range a.IOFields {
+		if f == fv && fv != nil {
+			return true
+		}
+	}
+	return false
+}
+
+// derivesFromIO: v is loaded from the connection's buffered I/O field(s).
+func (c *Ctx) derivesFromIO(v ssa.Value) bool {
+	for _, f := range c.A.IOFields {
+		if c.derivesFromField(v, f) {
+			return true
+		}
+	}
+	return false
 }
